@@ -184,12 +184,15 @@ def audit(prop: str) -> dict:
 # --------------------------------------------------------------------------- known findings
 
 def load_known(prop: str) -> list[dict]:
-  path = os.path.join(VERIF, "known_findings.json")
-  if not os.path.exists(path):
-    return []
-  with open(path) as fh:
-    data = json.load(fh)
-  return [f for f in data.get("findings", []) if f.get("property") == prop]
+  """known_findings.json (global) plus known/<prop>.json (per property), both committed files"""
+  out = []
+  for path in (os.path.join(VERIF, "known_findings.json"), os.path.join(VERIF, "known", prop + ".json")):
+    if not os.path.exists(path):
+      continue
+    with open(path) as fh:
+      data = json.load(fh)
+    out += [f for f in data.get("findings", []) if f.get("property") == prop]
+  return out
 
 
 def _subset(pat, key) -> bool:
